@@ -32,7 +32,8 @@
 (* Outcomes(tab, h, qt) is the SET of admissible outcomes.  It is a        *)
 (* singleton except where the statement is silent; every such place is     *)
 (* marked SILENT below and listed in notes/C06.md.  The table is edited    *)
-(* through TabAdd / TabDelete / TabUpdate (the three API calls).           *)
+(* through TabAdd / TabDelete / TabUpdate (the three API calls); saving    *)
+(* the configuration (TabSave) leaves it as it is.                         *)
 (***************************************************************************)
 EXTENDS Sequences, Naturals, FiniteSets
 
@@ -236,6 +237,9 @@ OutcomesAnyCase(tab, mixed(_), h0, qt) ==
 (*   update  replaces the first entry equal to old IN PLACE by new; if     *)
 (*           there is none the call fails and nothing changes.             *)
 (***************************************************************************)
+\* Writing the configuration to disk is not an edit: the table, and with it
+\* the outcome of every query, is what it was.
+TabSave(tab) == tab
 TabAdd(tab, e) == Append(tab, e)
 TabDelete(tab, e) == SelectSeq(tab, LAMBDA x : x # e)
 TabUpdate(tab, old, new) ==
@@ -249,17 +253,35 @@ TabUpdate(tab, old, new) ==
 FinalName(o, h0) == IF o.canon = NoName THEN h0 ELSE o.canon
 
 (***************************************************************************)
-(* What the client and the upstream see (the pipeline clauses).            *)
+(* What the client and the upstream see (the pipeline clauses).  The       *)
+(* upstream is a function UpMode from a name to what it does when asked:   *)
+(*   "answer"    records for the name, NOERROR                             *)
+(*   "nodata"    no records, NOERROR                                       *)
+(*   "nxdomain"  no records, NXDOMAIN                                      *)
+(*   "servfail"  no records, SERVFAIL                                      *)
+(* The observation:                                                        *)
 (*   ask     the questions put to the upstream: none or exactly one        *)
 (*   cname   target of the CNAME record that leads the answer, or <<>>     *)
 (*   ips     addresses answered from the table                             *)
 (*   fromup  the name whose upstream records complete the answer, or <<>>  *)
-(* The question section of the reply is always the client's own question.  *)
+(*   rcode   reply code: NOERROR when the table answers; the upstream's    *)
+(*           when the request (pass) or the canonical name is resolved     *)
+(*           upstream                                                      *)
+(* The question section of the reply is ALWAYS the client's own question   *)
+(* and the CNAME record of a followed rewrite is ALWAYS there, whatever    *)
+(* the upstream says about the canonical name ("resolved upstream with     *)
+(* the original name restored in the answer").                             *)
 (***************************************************************************)
-Serve(o, h0, qt) ==
+UpModes == {"answer", "nodata", "nxdomain", "servfail"}
+UpRcode(m) == IF m = "nxdomain" THEN "NXDOMAIN" ELSE IF m = "servfail" THEN "SERVFAIL" ELSE "NOERROR"
+
+Serve(o, h0, qt, UpMode(_)) ==
     IF o.r = "pass"
-    THEN [ask |-> {<<h0, qt>>}, cname |-> NoName, ips |-> {}, fromup |-> h0]
+    THEN [ask |-> {<<h0, qt>>}, cname |-> NoName, ips |-> {},
+          fromup |-> IF UpMode(h0) = "answer" THEN h0 ELSE NoName, rcode |-> UpRcode(UpMode(h0))]
     ELSE IF o.up
-    THEN [ask |-> {<<o.canon, qt>>}, cname |-> o.canon, ips |-> {}, fromup |-> o.canon]
-    ELSE [ask |-> {}, cname |-> o.canon, ips |-> o.ips, fromup |-> NoName]
+    THEN [ask |-> {<<o.canon, qt>>}, cname |-> o.canon, ips |-> {},
+          fromup |-> IF UpMode(o.canon) = "answer" THEN o.canon ELSE NoName,
+          rcode |-> UpRcode(UpMode(o.canon))]
+    ELSE [ask |-> {}, cname |-> o.canon, ips |-> o.ips, fromup |-> NoName, rcode |-> "NOERROR"]
 =============================================================================
